@@ -140,6 +140,10 @@ pub fn family(name: &str) -> GenCfg {
         // packages, excluded / locked-out / unknown-dependency solvables among them)
         "many-soft" => GenCfg { npkg: 14, maxver: 6, ..GenCfg::medium().with_soft(200) },
         "many-soft-hints" => GenCfg { hints: 1, ..family("many-soft") },
+        // few packages with many candidates AND a long soft list (dozens of directly requested
+        // versions of the same few packages: at-most-one registration of soft solvables at scale)
+        "many-cand-soft" => GenCfg { nsoft: 120, p_softbias: 20, ..family("many") },
+        "many-cand-soft-hints" => GenCfg { hints: 1, ..family("many-cand-soft") },
         "many-excl" => GenCfg { npkg: 4, maxver: 80, p_exclmany: 70, p_unknown: 12, p_lock: 15, p_con: 35, ..family("many") },
         "many-excl-hints" => GenCfg { hints: 1, ..family("many-excl") },
         other => panic!("unknown family {other}"),
